@@ -225,20 +225,34 @@ func init() {
 								dlg = extractT(fa, g, 0)
 							}
 						}
-						for i, ed := range phi.Edges {
-							_, amt := decCoinOf(fa.Term(ed))
-							pred := phi.Block().Preds[i]
-							afterDelete := d.Block() == pred || d.Block().Dominates(pred)
-							if amt == nil {
+						_ = phi
+						// every way the removed amount can come about (nested phis, and flags that an inlined helper returns,
+						// are expanded case by case)
+						cases := fa.PhiCases(dl, nil, 0)
+						if len(cases) < 2 {
+							okPhi = false
+						}
+						for _, c := range cases {
+							_, amt0 := decCoinOf(c.T)
+							if amt0 == nil {
 								okPhi = false
 								continue
 							}
-							if afterDelete {
-								if dlg == nil || !amt.Eq(mkField(dlg, "Shares")) {
+							for _, sc := range fa.PhiCases(amt0, c.Restrict, 0) {
+								amt := sc.T
+								afterDelete := false
+								for _, pred := range append(append([]*ssa.BasicBlock{}, c.Preds...), sc.Preds...) {
+									if d.Block() == pred || d.Block().Dominates(pred) {
+										afterDelete = true
+									}
+								}
+								if afterDelete {
+									if dlg == nil || !amt.Eq(mkField(dlg, "Shares")) {
+										okPhi = false
+									}
+								} else if !amt.IsCall("math.LegacyZeroDec") {
 									okPhi = false
 								}
-							} else if !amt.IsCall("math.LegacyZeroDec") {
-								okPhi = false
 							}
 						}
 					}
